@@ -346,25 +346,35 @@ PROPS['C10'] = {
 }
 
 PROPS['C09'] = {
-    'sidecars': ['contracts/C09_entities.py'],
-    'level': 'exploration',
-    'explanation': 'ALMOST ENTIRELY BOUNDED.  Discharged for all attribute values, by symbolic execution of the real parser and serialiser on a '
-                   'symbolic stanza of the documented shape (scenarios): IncomingAck, OutgoingAck, Presence and the Iq base class return every '
-                   'documented attribute unchanged and invent none (4 of ~115 classes; the proof pattern is per class and was not written for the '
-                   'others in the time available).  Everything else is the bounded stand-in, which is NOT counted as proved: every '
-                   'entity class that has a fixture in the repository or a documented example in its docstring that the class itself parses '
-                   'and reproduces (68 of 115 classes; the others are listed in the evidence) on the REAL classes '
-                   'and the REAL codec: documented stanza and value variations in the documented shape (each attribute position x each value of its '
-                   'kind, then random combinations; kinds by attribute name: JIDs, ids, timestamps, counts, flags, free Latin-1 text, printable '
-                   'blobs; list children repeated 1..4 times) -> entity -> stanza must reproduce the stanza (numbers by value), and the stanza of '
-                   'every sendable class must survive WriteEncoder / ReadDecoder unchanged.',
+    'sidecars': ['contracts/C09_a_receipts.py', 'contracts/C09_b_notifications.py', 'contracts/C09_c_iqs.py'],    # each imports C09_entities
+    # verified in separate registries: part b declares ProtocolTreeNode.getAllChildren opaque (a list of two), which would change how
+    # the code of the other parts is read
+    'sidecar_groups': [['contracts/C09_a_receipts.py'], ['contracts/C09_b_notifications.py'], ['contracts/C09_c_iqs.py']],
+    'level': 'other',
+    'explanation': 'TWO PARTS.  (1) Discharged for ALL attribute values, by symbolic execution of the real parser and serialiser on a symbolic '
+                   'stanza of the documented shape (one scenario per class; preconditions = the documented shape: tag, mandatory attributes, '
+                   'enumerated values, numerals in canonical decimal form; every documented attribute and child must come back equal and '
+                   'nothing may be invented): 57 entity classes - acks, receipts (without item list), chat states, presence family, last-seen '
+                   'result, notifications (base, picture set/delete, status, contact add/remove/update/sync, groups base/subject/add/remove), '
+                   'ib family (ib, dirty, offline, account, clean), iq family (base, ping, pong, result, error, privacy list, picture get / '
+                   'get-result / set / list, privacy get / set / result, status set, statuses get / result, unregister, sync, groups base / '
+                   'info / leave / list / subject / create).  Child LISTS are proved for two children (bounded in length only, stated per '
+                   'scenario); three scenarios are partial where the real code alters a field of a class that is only ever SENT (GetPictureIq '
+                   'type, SetPrivacyIq value: outside the statement\'s first sentence, noted as such).  Every scenario was mutation-tested (the '
+                   'real class broken in a scratch copy must fail it).  (2) The bounded stand-in, NOT counted as proved, for all classes with a '
+                   'fixture or a reproducing documented example plus the shapes pinned after the six repairs of this round, on the REAL classes '
+                   'and the REAL codec: documented stanza and value variations -> entity -> stanza must reproduce the stanza (numbers by value), '
+                   'and the stanza of every sendable class must survive WriteEncoder / ReadDecoder unchanged.  Level other: (1) is proof for the '
+                   'listed classes, (2) is bounded; media / message payload entities are C10.',
     'native_checks': [{'name': 'c09_entities', 'role': 'stand-in', 'cmd': ['bounded/entity_check.py'],
                        'bound': '53 fixture stanzas + 52 docstring shapes (68 classes) x (1 documented + single-position sweep over all attribute positions and kind values + 12 (quick) / '
                                 '300 (thorough) random variations); positions whose varied value the parser refuses are selectors of the shape and keep '
                                 'the documented value; binary blobs and protobuf payloads keep the documented value (C10); codec check for classes '
                                 'that are sent (name heuristic: not Incoming/Result/Success/Failure/Error/*Notification)'}],
-    'assumptions': ['the repository\'s own fixtures are the documented shapes', 'classes without a fixture are not exercised (listed in the evidence)'],
-    'technique': 'bounded native stand-in on the real classes and codec (labelled bounded) for almost all classes; contract-based deductive verification (PyVC scenarios on a symbolic stanza) for 4 simple classes only',
+    'assumptions': ['the repository\'s own fixtures and class docstrings are the documented shapes', 'ProtocolTreeNode.getChild is an assumed pure function of (node, tag)',
+                    'scenarios over child lists are proved for exactly two children', 'an absent offline attribute and offline="0" are the same stanza (default rendering)',
+                    'classes without fixture, reproducing example or scenario are not exercised (listed in the evidence)'],
+    'technique': 'contract-based deductive verification (PyVC scenarios: the real parser and serialiser executed symbolically on a symbolic stanza, z3/cvc5) for 57 entity classes; bounded native stand-in on the real classes and codec (labelled bounded) for the rest and for the codec conjunct',
 }
 
 PROPS['C03'] = {
